@@ -151,8 +151,9 @@ class World:
         self.flags: set[str] = set()
 
     # ---- helpers -----------------------------------------------------------------------------
-    def ids(self) -> dict[str, int]:
-        return self.L.id_generator._ids  # type: ignore[no-any-return]  # pylint: disable=protected-access
+    def ids(self) -> Any:
+        from ..idcounters import Counters  # pylint: disable=import-outside-toplevel
+        return Counters(self.L.id_generator)
 
     def labels_of(self, kinds: Iterable[str]) -> list[int]:
         ks = set(kinds)
@@ -241,10 +242,14 @@ class World:
         return out
 
     def do_start(self, ids: dict[str, int]) -> None:
+        from ..idcounters import CountersUnavailable  # pylint: disable=import-outside-toplevel
         cur = self.ids()
         for p, v in ids.items():
             if cur.get(p, 0) < v:
-                cur[p] = v
+                try:
+                    cur[p] = v
+                except CountersUnavailable:
+                    self.flags.add("bump_unavailable")
 
     def do_symbol(self, label: int, name: Any, latex: Any, dim: str, assum: dict[str, bool]) -> list[Viol]:
         o = self.L.Symbol(name, self.L.libdim[dim], display_latex=latex, **assum)
@@ -438,9 +443,14 @@ class World:
 
     # ---- history-only steps --------------------------------------------------------------------
     def do_bump(self, prefix: str, to: int) -> None:
+        from ..idcounters import CountersUnavailable  # pylint: disable=import-outside-toplevel
         cur = self.ids()
         if cur.get(prefix, 0) < to:
-            cur[prefix] = to
+            try:
+                cur[prefix] = to
+            except CountersUnavailable:
+                self.flags.add("bump_unavailable")
+                return
             self.flags.add(f"bumped:{prefix}")
 
     def do_garbage(self, n: int) -> None:
@@ -915,7 +925,7 @@ def burst_strategy() -> Any:
     return st.fixed_dictionaries({"kind": st.sampled_from(["quantity", "quantity", "symbol", "function"]),
         "base": st.sampled_from(["m", "E_k", "x", "q1"]), "n": st.integers(9, 24),
         "suffixes": st.lists(st.sampled_from(["1", "2", "11", "12", "10", "21", "_1"]), min_size=1, max_size=4, unique=True),
-        "late_first": st.booleans()})
+        "late_first": st.booleans(), "thread": st.sampled_from([False, False, True])})
 
 
 def judge_burst(case: dict[str, Any]) -> list[Viol]:
@@ -938,16 +948,63 @@ def judge_burst(case: dict[str, Any]) -> list[Viol]:
             o = Function(name, dimension=su.Dimension(u.dimension if hasattr(u, "dimension") else 1))
             made.append((name, o, None, o.dimension))
 
+    # objects that exist before the burst: the catalogue's constants and common symbols (with what they mean)
+    import symplyphysics.quantities as _consts  # pylint: disable=import-outside-toplevel
+    import symplyphysics.symbols as _common  # pylint: disable=import-outside-toplevel
+    pre: list[tuple[str, Any, Any]] = []
+    for nm_ in sorted(getattr(_consts, "__all__", [])):
+        c_ = getattr(_consts, nm_)
+        pre.append((f"quantities.{nm_}", c_, (sympy.sympify(c_.scale_factor), c_.dimension, getattr(c_, "display_name", None))))
+    for sub_ in sorted(n_ for n_ in dir(_common) if not n_.startswith("_")):
+        m_ = getattr(_common, sub_)
+        if str(getattr(m_, "__name__", "")).startswith("symplyphysics.symbols"):
+            for nm_ in sorted(dir(m_)):
+                o_ = getattr(m_, nm_)
+                if isinstance(o_, sympy.Symbol) and hasattr(o_, "dimension"):
+                    pre.append((f"symbols.{sub_}.{nm_}", o_, (None, o_.dimension, getattr(o_, "display_name", None))))
     names = [case["base"]] * case["n"]
     late = [case["base"] + sfx for sfx in case["suffixes"]]
     order = late + names if case["late_first"] else names + late
     try:
-        for i, nm in enumerate(order):
-            make(nm, i)
+        if case.get("thread"):
+            # the second half of the objects is created in another thread (ids must be unique across threads)
+            import threading  # pylint: disable=import-outside-toplevel
+            half = len(order) // 2
+            for i, nm in enumerate(order[:half]):
+                make(nm, i)
+            errors: list[BaseException] = []
+
+            def work() -> None:
+                try:
+                    for i, nm in enumerate(order[half:]):
+                        make(nm, half + i)
+                except BaseException as exc:  # pylint: disable=broad-except
+                    errors.append(exc)
+
+            th = threading.Thread(target=work)
+            th.start()
+            th.join()
+            if errors:
+                raise errors[0]
+        else:
+            for i, nm in enumerate(order):
+                make(nm, i)
     except Exception as exc:  # pylint: disable=broad-except
         return [(f"burst:exception:{type(exc).__name__}", f"creating {case['kind']} objects named {order[:3]}...: {exc}")]
     out: list[Viol] = []
     objs = [m[1] for m in made]
+    for where, p_, (sf_, dim_, disp_) in pre:
+        for i, (nm, o, _sf, _dim) in enumerate(made):
+            if type(o) is type(p_) and o == p_:
+                out.append((f"alias:burst:{case['kind']}:pre-existing",
+                    f"{case['kind']} number {i + 1} (display name {nm!r}) created "
+                    f"{'in a second thread ' if case.get('thread') else ''}compares equal to the pre-existing {where}"))
+                return out
+        now = (sympy.sympify(p_.scale_factor) if sf_ is not None else None, p_.dimension, getattr(p_, "display_name", None))
+        if now != (sf_, dim_, disp_):
+            out.append((f"alias:burst:{case['kind']}:pre-existing-overwritten",
+                f"{where} was {(sf_, dim_, disp_)} before the burst and is {now} after it"))
+            return out
     for i, a in enumerate(objs):
         for j in range(i + 1, len(objs)):
             if a == objs[j] or hash(a) == hash(objs[j]) and a is objs[j]:
